@@ -1,3 +1,5 @@
+use std::convert::TryFrom;
+
 use ebml_iterable_specification::{EbmlSpecification, EbmlTag, PathPart};
 
 use crate::tag_iterator_util::EBMLSize;
@@ -39,51 +41,35 @@ pub fn is_ended_by<T: EbmlSpecification<T> + EbmlTag<T> + Clone>(current_id: u64
     )
 }
 
-#[inline(always)]
-pub fn validate_tag_path<T: EbmlSpecification<T> + EbmlTag<T> + Clone>(tag_id: u64, doc_path: impl Iterator<Item = (u64, EBMLSize, usize)> + Clone) -> bool {
-    let path = <T>::get_path_by_id(tag_id);
-    let mut path_marker = 0;
-    let mut global_counter = 0;
-    let mut doc_path = doc_path;
-    while let Some(item) = doc_path.next() {
-        let current_node_id = item.0;
-
-        // A tag can only end an unknown sized master if everything open inside that master is unknown sized as well -
-        // a known sized master in between still contains the tag based on its byte range
-        if !item.1.is_known() && is_ended_by::<T>(current_node_id, tag_id) && doc_path.clone().all(|inner| !inner.1.is_known()) {
-            return true;
-        }
-
-        if path_marker >= path.len() {
-            return false;
-        }
-
-        match path[path_marker] {
-            PathPart::Id(id) => {
-                if id != current_node_id {
-                    return false;
-                }
-                path_marker += 1;
-            },
-            PathPart::Global((min, max)) => {
-                global_counter += 1;
-                if max.is_some() && global_counter > max.unwrap_or_default() {
-                    return false;
-                }
-                if path.len() > (path_marker + 1) && matches!(path[path_marker + 1], PathPart::Id(id) if id == current_node_id) {
-                    if min.is_some() && global_counter < min.unwrap_or_default() {
-                        return false;
-                    }
-                    path_marker += 2;
-                    global_counter = 0;
-                }
-            },
-        }
+///
+/// Returns whether the open `parents` (outermost first) are exactly what the declared `path` of a tag describes.
+///
+/// Every [`PathPart::Id`] stands for that one parent; every [`PathPart::Global`] stands for any run of parents whose length is within its bounds.
+///
+fn path_matches(path: &[PathPart], parents: &[u64]) -> bool {
+    match path.split_first() {
+        None => parents.is_empty(),
+        Some((PathPart::Id(id), rest)) => parents.first() == Some(id) && path_matches(rest, &parents[1..]),
+        Some((PathPart::Global((min, max)), rest)) => {
+            let min = usize::try_from(min.unwrap_or(0)).unwrap_or(usize::MAX);
+            let max = max.map_or(parents.len(), |max| usize::try_from(max).unwrap_or(usize::MAX).min(parents.len()));
+            (min..=max).any(|count| path_matches(rest, &parents[count..]))
+        },
     }
+}
 
-    // Validate that we compared ALL parents in the path
-    path.len() == path_marker || 
-    // or that the last parent was a global whose minimum was met
-        ((path.len() - 1) == path_marker && matches!(path[path_marker], PathPart::Global((min, _)) if global_counter >= min.unwrap_or(0)))
-    
+#[inline(always)]
+pub fn validate_tag_path<T: EbmlSpecification<T> + EbmlTag<T> + Clone>(tag_id: u64, doc_path: impl Iterator<Item = (u64, EBMLSize, usize)>) -> bool {
+    let parents: Vec<(u64, EBMLSize)> = doc_path.map(|item| (item.0, item.1)).collect();
+
+    // The tag may end the innermost open masters if their sizes are unknown (a known sized master still contains the tag based on its byte range).
+    // If it does, everything from the outermost master it ends is closed, and the tag has to fit below the parents that remain.
+    let unknown_run_start = parents.iter().rposition(|parent| parent.1.is_known()).map_or(0, |index| index + 1);
+    let remaining = match (unknown_run_start..parents.len()).find(|&index| is_ended_by::<T>(parents[index].0, tag_id)) {
+        Some(index) => &parents[..index],
+        None => &parents[..],
+    };
+
+    let remaining: Vec<u64> = remaining.iter().map(|parent| parent.0).collect();
+    path_matches(<T>::get_path_by_id(tag_id), &remaining)
 }
